@@ -42,6 +42,7 @@ POOL = [
     ('bad7.feature', 'Feature: b\nFeature: c\n  Scenario: s\n  | a |\n'),
     ('bad8.feature', '# a comment that must not leak\n' + 'y\n' * 13),
     ('bad9.feature', 'Feature: b\n  Scenario: s\n    Given x\n  @dangling\n'),
+    ('rules.feature', '@f\nFeature: r\n  @r1\n  Rule: one\n    Example: a\n      Given x\n  @r2\n  Rule: two\n    @s\n    Example: b\n      Given y\n'),
     ('uni.feature', 'Feature: ü😀\n  Scenario: <>&"\\\n    Given \\n\n      | \\| | 😀 |\n'),
 ]
 OPTS = list(itertools.product((False, True), repeat=3))
@@ -81,6 +82,17 @@ def check_solo(i, opts, evs, acc, case):
     want = (['source'] if opts[0] else []) + (['gherkinDocument'] if opts[1] else []) + (['pickle'] * len(r.pickles) if opts[2] else [])
     if kinds != want:
         acc.violation('envelope-order', case, 'envelope kinds / order / option gating', observed=kinds, expected=want)
+        return False
+    docs = [e['gherkinDocument'] for e in evs if 'gherkinDocument' in e]
+    if docs and docs[0] != r.doc:
+        from .c03 import first_diff
+        d = first_diff(docs[0], r.doc)
+        acc.violation('document-envelope', case, 'gherkinDocument envelope (as held after the whole stream was drawn) differs from the reference document at %s' % (d[0] if d else '?'),
+                      observed=d[1] if d else None, expected=d[2] if d else None)
+        return False
+    pks = [e['pickle'] for e in evs if 'pickle' in e]
+    if opts[2] and pks != r.pickles:
+        acc.violation('pickle-envelope', case, 'pickle envelopes differ from the reference pickles')
         return False
     for e in evs:
         if 'source' in e:
@@ -239,6 +251,8 @@ def job_files(items):
             with open(path, 'w', encoding='utf8', newline='') as f:
                 f.write(text)
             paths.append((path, text))
+        # the same path may be given more than once (overlapping globs): every occurrence is a source
+        paths = paths + paths[:2] + paths[-1:]
         events = list(SourceEvents([p for p, _ in paths]).enum())
         acc.n += 1
         if [e['source']['uri'] for e in events] != [p for p, _ in paths]:
